@@ -411,6 +411,16 @@ def size_guard(tool, args):
                 continue
             if v > (3 if seen_T else 6) and not (v < 100 and False):
                 return False
+    # `complete N t` is the complete t-partite graph with parts of N vertices: for the families whose encoding is exponential
+    # in the degree (Tseitin, even colouring) only small ones are run (a duplicated token easily asks for 36 vertices of degree 30)
+    if any(a in ('tseitin', 'ec', 'parity', 'matching') for a in args):
+        for i, a in enumerate(args):
+            if a == 'complete' and i + 2 < len(args) and _is_num(args[i + 1]) and _is_num(args[i + 2]):
+                try:
+                    if abs(float(args[i + 1])) * max(0.0, abs(float(args[i + 2])) - 1) > 8:
+                        return False
+                except ValueError:
+                    pass
     return True
 
 
@@ -445,6 +455,9 @@ def run_case(case):
     d = tempfile.mkdtemp(prefix="c18_")
     try:
         args = materialize(case['args'], d)
+        guarded = [a for i, a in enumerate(args) if not (i > 0 and args[i - 1] == '--seed')]
+        if not case.get('sized') and not size_guard(tool, guarded):
+            return Outcome(nontrivial=False, labels=['size-guard'])
         cwd0 = os.getcwd()
         os.chdir(d)
         try:
@@ -452,9 +465,6 @@ def run_case(case):
         finally:
             os.chdir(cwd0)
         seedpos = [i for i, a in enumerate(args) if a == '--seed']
-        guarded = [a for i, a in enumerate(args) if not (i > 0 and args[i - 1] == '--seed')]
-        if not case.get('sized') and not size_guard(tool, guarded):
-            return Outcome(nontrivial=False, labels=['size-guard'])
         random.seed(case['rseed'])
         cwd = os.getcwd()
         os.chdir(d)            # relative file names produced by mutations stay inside the scratch directory
